@@ -382,7 +382,11 @@ def migration7(tdset):
     # We have a valid summary table.
     source_table_name = m.group(1)
     source_table_ref = table_name_to_ref[source_table_name]
-    groupby_colrefs = [int(x) for x in m.group(2).strip("_").split("_")]
+    groupby_colrefs = [int(x) for x in m.group(2).strip("_").split("_") if x]
+    if not groupby_colrefs or any(c not in columns_map_by_ref for c in groupby_colrefs):
+      # Summary table names list the refs of their group-by columns. Without them, or with numbers
+      # that are not column refs, this is a user table that merely looks like a summary table.
+      continue
     # Prepare a new-style name for the summary table. Be sure not to conflict with existing tables
     # or with each other (i.e. don't rename multiple tables to the same name).
     groupby_col_ids = [columns_map_by_ref[c].colId for c in groupby_colrefs]
